@@ -1,22 +1,67 @@
 import NsyncVerif.Model.MuXDriver
+import NsyncVerif.Model.TimeDriver
+import NsyncVerif.Model.EmitDriver
+import NsyncVerif.Model.FutexDriver
+import NsyncVerif.Model.OnceDriver
 /-
-  `replay <layer>…` : reads a harness log on stdin, feeds every line to the selected layers' acceptors.
-  Output: one line per rejection (`REJECT exec=<n> line=<k> <reason> | <log line>`), the first rejection
-  of an execution stops that layer for the rest of that execution; a final `SUMMARY` line and `COV`
-  lines with transition coverage.
+  `replay <layer>…` : reads a harness log (or a differential case file) on stdin and feeds every line
+  to the selected layers.  A layer answers `ok`, `skip`, `#` or a complaint (`REJECT …`, `MISMATCH …`,
+  `bad-op`).  Output: one line per complaint (`REJECT exec=<n> line=<k> layer=<l> <reason> | <line>`);
+  the first complaint of an execution stops that layer for the rest of that execution; finally `COV`
+  lines (MuX transition coverage) and a `SUMMARY` line.  Exit status 1 iff there was a complaint.
 -/
 open NsyncVerif
 
+structure Layers where
+  mux : MuX.Driver.DState := MuX.Driver.init
+  time : Time.Driver.DState := Time.Driver.init
+  emit : Emit.Driver.DState := Emit.Driver.init
+  futex : Futex.Driver.DState := Futex.Driver.init
+  once : Once.Driver.DState := Once.Driver.init
+
+/-- Nested API boundaries are logged as `ncall`/`nret` with structured names (`oncesync5.mu`,
+    `ctr0.mu`, …); the layers that treat an inner mutex/cv as a black box were written against
+    `call`/`ret` and flat names `mu<k>` / `cv<k>`. -/
+def flatName (tok : String) : String :=
+  if tok.startsWith "oncesync" && tok.endsWith ".mu" then "mu" ++ ((tok.drop 8).dropEnd 3).toString
+  else if tok.startsWith "oncesync" && tok.endsWith ".cv" then "cv" ++ ((tok.drop 8).dropEnd 3).toString
+  else if tok.startsWith "ctr" && tok.endsWith ".mu" then "mu" ++ ((tok.drop 3).dropEnd 3).toString
+  else tok
+
+def adaptNested (line : String) : String :=
+  match line.splitOn " " with
+  | t :: "ncall" :: rest => " ".intercalate (t :: "call" :: rest.map flatName)
+  | t :: "nret" :: rest => " ".intercalate (t :: "ret" :: rest)
+  | _ => line
+
+/-- Event kinds of CONVENTIONS.md; the harness also logs auxiliary lines (`lockann`, `data`, `oracle`,
+    `reclaim`, `condarg`, `plain`) that only some layers understand. -/
+def isConventionKind (line : String) : Bool :=
+  match line.splitOn " " with
+  | _ :: k :: _ => k ∈ ["call", "ret", "ncall", "nret", "atm", "sem", "futex", "now", "tick", "cb", "cond", "panic"]
+  | _ => false
+
+def Layers.feed (l : Layers) (name line : String) : Layers × String :=
+  match name with
+  | "mux" => let (d, o) := MuX.Driver.step l.mux line; ({ l with mux := d }, o)
+  | "time" => let (d, o) := Time.Driver.step l.time line; ({ l with time := d }, o)
+  | "emit" => let (d, o) := Emit.Driver.step l.emit line; ({ l with emit := d }, o)
+  | "futex" => let (d, o) := Futex.Driver.step l.futex line; ({ l with futex := d }, o)
+  | "once" =>
+    if isConventionKind line then
+      let (d, o) := Once.Driver.step l.once (adaptNested line); ({ l with once := d }, o)
+    else (l, "skip")
+  | _ => (l, "bad-layer")
+
 structure St where
-  mux : MuX.Driver.DState
-  muxDead : Bool
-  execNo : Nat
-  lineNo : Nat
-  accepted : Nat
-  skipped : Nat
-  rejects : Nat
-  rejectedExecs : Nat
-  cov : List (String × Nat)
+  layers : Layers := {}
+  dead : List String := []
+  execNo : Nat := 0
+  lineNo : Nat := 0
+  accepted : Nat := 0
+  skipped : Nat := 0
+  rejects : Nat := 0
+  cov : List (String × Nat) := []
 
 def mergeCov (a b : List (String × Nat)) : List (String × Nat) :=
   b.foldl (fun acc (k, n) =>
@@ -24,33 +69,33 @@ def mergeCov (a b : List (String × Nat)) : List (String × Nat) :=
     | some p => (k, p.2 + n) :: acc.filter (fun q => q.1 != k)
     | none => (k, n) :: acc) a
 
-partial def loop (h : IO.FS.Stream) (layers : List String) (st : St) : IO St := do
+partial def loop (h : IO.FS.Stream) (names : List String) (st : St) : IO St := do
   let line ← h.getLine
   if line.isEmpty then
-    return { st with cov := mergeCov st.cov st.mux.cov }
+    return { st with cov := mergeCov st.cov st.layers.mux.cov }
   let line := line.trimAsciiEnd.toString
   let st := { st with lineNo := st.lineNo + 1 }
   if line.startsWith "# begin" then
-    let cov := mergeCov st.cov st.mux.cov
-    loop h layers { st with mux := MuX.Driver.init, muxDead := false, execNo := st.execNo + 1, cov := cov }
-  else if line.startsWith "#" then
-    loop h layers st
+    let cov := mergeCov st.cov st.layers.mux.cov
+    loop h names { st with layers := {}, dead := [], execNo := st.execNo + 1, cov := cov }
+  else if line.startsWith "# outcome" || line.startsWith "# sched" || line.startsWith "# endexec" then
+    loop h names st
   else
     let mut st := st
-    if layers.contains "mux" && !st.muxDead then
-      let (d, out) := MuX.Driver.step st.mux line
-      if out == "ok" then st := { st with mux := d, accepted := st.accepted + 1 }
-      else if out == "skip" then st := { st with mux := d, skipped := st.skipped + 1 }
-      else
-        IO.println s!"REJECT exec={st.execNo} line={st.lineNo} {out} | {line}"
-        st := { st with muxDead := true, rejects := st.rejects + 1, rejectedExecs := st.rejectedExecs + 1 }
-    loop h layers st
+    for name in names do
+      if !st.dead.contains name then
+        let (l, out) := st.layers.feed name line
+        if out == "ok" then st := { st with layers := l, accepted := st.accepted + 1 }
+        else if out == "skip" || out == "#" then st := { st with layers := l, skipped := st.skipped + 1 }
+        else
+          IO.println s!"REJECT exec={st.execNo} line={st.lineNo} layer={name} {out} | {line}"
+          st := { st with dead := name :: st.dead, rejects := st.rejects + 1 }
+          if st.execNo == 0 then st := { st with dead := [] }   -- differential files: keep going
+    loop h names st
 
 def main (args : List String) : IO UInt32 := do
   let stdin ← IO.getStdin
-  let st ← loop stdin args
-    { mux := MuX.Driver.init, muxDead := false, execNo := 0, lineNo := 0, accepted := 0, skipped := 0,
-      rejects := 0, rejectedExecs := 0, cov := [] }
+  let st ← loop stdin args {}
   for (k, n) in st.cov do
     IO.println s!"COV {k} {n}"
   IO.println s!"SUMMARY execs={st.execNo} lines={st.lineNo} accepted={st.accepted} skipped={st.skipped} rejects={st.rejects}"
